@@ -17,12 +17,16 @@ Q == Tier = "quick"
 MaxT       == IF Q THEN 6 ELSE 8
 MaxSamples == IF Q THEN 3 ELSE 4
 Ranges     == IF Q THEN {1, 2, 4} ELSE {1, 2, 3, 5}
-Steps      == IF Q THEN {0, 1, 3} ELSE {0, 1, 2}
+\* with a tick of 500 ms the samples lie two ticks apart (Stretch), the ranges, offsets and pins are doubled with them and the
+\* window has 23 steps of one tick: the step is finer than the sample spacing, consecutive steps see the same samples from a
+\* window that has moved on, and the window crosses the engine's batches of 10 steps twice
+Stretch    == IF TickMs = 500 THEN 2 ELSE 1
+Steps      == IF TickMs = 500 THEN {1} ELSE IF Q THEN {0, 1, 3} ELSE {0, 1, 2}
 Offsets    == IF Q THEN {0, 2} ELSE {-1, 0, 2}
 AtP(k, v)  == [k |-> k, v |-> v]
 Ats        == IF Q THEN {AtP("none", 0), AtP("lit", 4)} ELSE {AtP("none", 0), AtP("end", 0), AtP("lit", 4)}
 Starts     == IF Q THEN {2} ELSE {1, 4}
-NSteps     == IF Q THEN {4, 12} ELSE {3, 12, 23}
+NSteps     == IF TickMs = 500 THEN {23} ELSE IF Q THEN {4, 12} ELSE {3, 12, 23}
 \* "special": NaN and +/-Inf samples among the numbers (min/max_over_time skip NaN next to a number, sums are poisoned)
 \* "negrise": a rising series that starts below zero (counter functions extrapolate to the zero crossing only for values >= 0)
 \* "signed": zeros of either sign and NaNs of two bit patterns next to each other (equal as values, different as bits)
@@ -42,7 +46,7 @@ Val(pat, u) == IF pat = "pow2" THEN 2 ^ u ELSE IF pat = "negrise" THEN 10 * u - 
 SmpOf(x) == LET ts == SetToSortSeq({u \in 0..MaxT : x.lay[u] # "-"}, LAMBDA a, b : a < b)
                 SK(u) == IF x.pat = "signed" THEN (CASE u % 4 = 0 -> "f" [] u % 4 = 1 -> "nz" [] u % 4 = 2 -> "nan" [] OTHER -> "nan2")
                          ELSE IF x.pat # "special" THEN "f" ELSE (CASE u % 4 = 1 -> "nan" [] u % 4 = 2 -> "pinf" [] u % 8 = 3 -> "ninf" [] OTHER -> "f")
-            IN [i \in 1..Len(ts) |-> Smp(ts[i], IF x.lay[ts[i]] = "f" THEN SK(ts[i]) ELSE "s", Val(x.pat, ts[i]))]
+            IN [i \in 1..Len(ts) |-> Smp(ts[i] * Stretch, IF x.lay[ts[i]] = "f" THEN SK(ts[i]) ELSE "s", Val(x.pat, ts[i]))]
 
 Hash(x) == (x.rng * 7 + (x.off + 3) * 13 + x.step * 17 + x.start * 19 + x.n * 23 + (IF x.pat = "zig" THEN 5 ELSE IF x.pat = "special" THEN 9 ELSE IF x.pat = "negrise" THEN 31 ELSE IF x.pat = "signed" THEN 43 ELSE 0)
             + FoldSet(LAMBDA u, acc : acc + (IF x.lay[u] = "-" THEN 0 ELSE IF x.lay[u] = "f" THEN u + 1 ELSE 3 * (u + 1)), 0, 0..MaxT) * 29)
@@ -52,11 +56,11 @@ FnOf(x) == Fns[Pick(Hash(x) + (Seed % 997) * 131, 1, Len(Fns)) + 1]
 \* m{a="x"} in its shard with other lifetimes (values 3: the window law looks at the series a="x" only)
 Data(x) == << Series(<< <<"__name__", "m">>, <<"a", "w">> >>, <<Smp(0, "f", 3), Smp(1, "f", 3)>>),
               Series(<< <<"__name__", "m">>, <<"a", "x">> >>, SmpOf(x)),
-              Series(<< <<"__name__", "m">>, <<"a", "z">> >>, [u \in 1..(MaxT + 14) |-> Smp(u - 1, "f", 3)]),
-              Series(<< <<"__name__", "decoy">>, <<"a", "x">> >>, <<Smp(0, "f", 7), Smp(MaxT, "f", 8)>>) >>
-EndOf(x) == IF x.step = 0 THEN x.start ELSE x.start + (x.n - 1) * x.step
-ScnOf(x) == Scn("win", "C03", TickMs, Data(x), <<RFn(FnOf(x), <<Metric("m")>>, x.rng, x.off, x.at.k, x.at.v)>>,
-                x.start, EndOf(x), x.step, 3, 0)
+              Series(<< <<"__name__", "m">>, <<"a", "z">> >>, [u \in 1..(MaxT * Stretch + 14 * Stretch) |-> Smp(u - 1, "f", 3)]),
+              Series(<< <<"__name__", "decoy">>, <<"a", "x">> >>, <<Smp(0, "f", 7), Smp(MaxT * Stretch, "f", 8)>>) >>
+EndOf(x) == IF x.step = 0 THEN x.start * Stretch ELSE x.start * Stretch + (x.n - 1) * x.step
+ScnOf(x) == Scn("win", "C03", TickMs, Data(x), <<RFn(FnOf(x), <<Metric("m")>>, x.rng * Stretch, x.off * Stretch, x.at.k, x.at.v * Stretch)>>,
+                x.start * Stretch, EndOf(x), x.step, 3, 0)
 
 \* model-level law: count_over_time of the denotation equals the number of non-stale samples in the
 \* closed window [ref - rng, ref], and sum_over_time over "pow2" is the window's membership bitmask
@@ -86,8 +90,8 @@ Interesting(x) ==
 \* the patterns with special values are replayed under four of the functions each (what a function makes of a NaN next to
 \* a NaN, of zeros of either sign, of an infinity is a matter of the function)
 FnK(x, k) == Fns[((Pick(Hash(x) + (Seed % 997) * 131, 1, Len(Fns)) + 5 * k) % Len(Fns)) + 1]
-ScnFn(x, fn) == [ScnOf(x) EXCEPT !.plan = <<RFn(fn, <<Metric("m")>>, x.rng, x.off, x.at.k, x.at.v)>>]
-EmitWin == IF (Interesting(g) /\ Pick(Hash(g), 0, Mod) = Seed % Mod)
+ScnFn(x, fn) == [ScnOf(x) EXCEPT !.plan = <<RFn(fn, <<Metric("m")>>, x.rng * Stretch, x.off * Stretch, x.at.k, x.at.v * Stretch)>>]
+EmitWin == IF ((Stretch = 2 \/ Interesting(g)) /\ Pick(Hash(g), 0, Mod) = Seed % Mod)
            THEN (IF g.pat \in {"special", "signed"} THEN \A k \in 0..3 : Emit(ScnFn(g, FnK(g, k))) ELSE Emit(ScnOf(g)))
            ELSE TRUE
 =============================================================================
